@@ -161,7 +161,7 @@ impl Debugger {
     }
 
     pub(super) fn increment_instruction_count(&mut self) {
-        self.instruction_count += 1;
+        self.instruction_count = self.instruction_count.saturating_add(1);
     }
 
     #[cfg(lace_verif)]
